@@ -142,11 +142,11 @@ def _train_update_rows(ctx: TrainContext, start: int, end: int, pbh: str) -> tor
 
     for i in range(start, end):
         row = ctx.matrix[i]
-        (n,) = row.shape
-        if n == 0:
+        cols = row.indices()[0]
+        # rows without data keep their current values (the row's shape is the matrix width, not its entry count)
+        if cols.shape[0] == 0:
             continue
 
-        cols = row.indices()[0]
         vals = row.values().type(ctx.left.type())
 
         V = _train_solve_row(cols, vals, ctx.left, ctx.right, ctx.regI)
